@@ -3,9 +3,9 @@ import json
 
 META = {
     "level": "model_checking",
-    "technique": "TLA+ transcriptions of ClosestPeersIter (next/on_success/on_failure/at_capacity/stall logic) and FixedPeersIter model-checked against every response/failure/timeout pattern of a small peer graph (canaries: '>' in at_capacity, missing decrement); every call on the real ClosestPeersIter, ClosestDisjointPeersIter and FixedPeersIter under exhaustive short and seeded adaptive environments validated by TLC against a property-level trace spec",
-    "text": "TLC exhaustively explores the transcribed ClosestPeersIter over 4-5 peers (parallelism 1-2, num_results 2-3, peer timeout 2, every closer-peer subset, failure and timeout pattern) for: counter = number of waiting peers, in-flight bound, requests issued only below the limit in force, no closer known peer left uncontacted/waiting at self-termination, finish only when done, no stuck state; and the FixedPeersIter model (duplicates in the list). The real iterators are run over real PeerIds named by their distance rank to a real target with synthetic instants: all environment sequences of length 3-4 over a 11-letter alphabet on a 3-peer world (4 configurations per iterator kind) and seeded adaptive random environments (2-9 peers, answers mostly for outstanding requests, arbitrary closer-peer sets, late answers after timeouts, finish()); after the schedule every outstanding request fails or times out and the lookup must reach Finished within a step budget. TLC validates each recorded call against the statement (known/contacted/in-flight sets rebuilt from the calls; which known peer is chosen is unconstrained).",
-    "note": "The limit in force is taken as parallelism until `parallelism` successes have been delivered (a stall cannot happen earlier) and max(num_results, parallelism) afterwards: the exact stall rule is implementation-defined (doc comment and code disagree), so it is not re-derived. For the disjoint-path iterator the bounds are per path (parallelism paths) and its result may hold parallelism * num_results peers, as its documentation says; it has no MC model of its own.",
+    "technique": "TLA+ transcriptions of ClosestPeersIter (next/on_success/on_failure/at_capacity/stall logic), of the disjoint-path wrapper (without time) and of FixedPeersIter model-checked against every response/failure/timeout pattern of a small peer graph (canaries: '>' in at_capacity, closer peers shared between paths, missing decrement); every call on the real ClosestPeersIter, ClosestDisjointPeersIter and FixedPeersIter under exhaustive short and seeded adaptive environments validated by TLC against a property-level trace spec",
+    "text": "TLC exhaustively explores the transcribed ClosestPeersIter over 4-5 peers (parallelism 1-2, num_results 2-3, peer timeout 2, every closer-peer subset, failure and timeout pattern) for: counter = number of waiting peers, in-flight bound, requests issued only below the limit in force, no closer known peer left uncontacted/waiting at self-termination, finish only when done, no stuck state; the ClosestDisjointPeersIter model (3-4 peers, 2 paths: per-path bounds, each peer contacted once, closer peers reach one path only, result size, no stuck state) and the FixedPeersIter model (duplicates in the list). The real iterators are run over real PeerIds named by their distance rank to a real target with synthetic instants: all environment sequences of length 3-4 over a 11-letter alphabet on a 3-peer world (4 configurations per iterator kind) and seeded adaptive random environments (2-9 peers, answers mostly for outstanding requests, arbitrary closer-peer sets, late answers after timeouts, finish()); after the schedule every outstanding request fails or times out and the lookup must reach Finished within a step budget. TLC validates each recorded call against the statement (known/contacted/in-flight sets rebuilt from the calls; which known peer is chosen is unconstrained).",
+    "note": "The limit in force is taken as parallelism until `parallelism` successes have been delivered (a stall cannot happen earlier) and max(num_results, parallelism) afterwards: the exact stall rule is implementation-defined (doc comment and code disagree), so it is not re-derived. For the disjoint-path iterator the bounds are per path (parallelism paths) and its result may hold parallelism * num_results peers, as its documentation says; its MC model has no peer timeouts (covered per path by the ClosestPeersIter model).",
     "design_ref": "6/C39",
 }
 
@@ -17,6 +17,8 @@ def run(c):
     c.tlc_mc("KadLookup", "MCKadLookup_canary.cfg", expect=["InFlightBound", "IterBound", "IssueWithinCapacity"])
     c.tlc_mc("MCKadFixed", "MCKadFixed.cfg")
     c.tlc_mc("MCKadFixed", "MCKadFixed_canary.cfg", expect=["CounterExact", "StuckFree", "Bound"])
+    c.tlc_mc("KadDisjoint", c.pick("MCKadDisjoint_q.cfg", "MCKadDisjoint.cfg"), timeout=1500)
+    c.tlc_mc("KadDisjoint", "MCKadDisjoint_canary.cfg", expect="Disjoint")
     if not c.quick:
         c.tlc_mc("KadLookup", "MCKadLookup_b.cfg", timeout=1500)
     drv = c.build("drv-kad")
